@@ -26,7 +26,8 @@ class InvCtx:
 
 class Inv:
     def __init__(s, name, qf=None, foralls=(), conts=(), dicts=(), fields=(), vars=(), var_types=None, setup=None,
-                 ghost_havoc=None, axioms=(), defs=None, steps=(), header=None):
+                 ghost_havoc=None, axioms=(), defs=None, steps=(), header=None, dforalls=()):
+        s.dforalls = list(dforalls)  # [(dict name/resolver, fn(ctx, path, key) -> Bool)]: per-key facts of a dict (checked on a fresh key)
         s.name, s.qf, s.foralls, s.conts, s.dicts, s.fields, s.vars = name, qf, list(foralls), list(conts), list(dicts), list(fields), list(vars)
         s.var_types = var_types or {}
         s.setup = setup            # fn(ctx) run once at loop entry (may record ghost values in ctx.extra)
@@ -609,6 +610,13 @@ class StmtMixin(CallMixin):
             body = fn(cctx, c, j0)
             lab = label if isinstance(label, str) else (label[0] if isinstance(label, tuple) and isinstance(label[0], str) else f"#{i}")
             s.oblig(f"{inv.name}.{stage}.forall[{lab}]", "inv", c, body)
+        for i, (label, fn) in enumerate(inv.dforalls):
+            c = p.clone()
+            k0 = fresh("ksk")
+            cctx = InvCtx(s, c, H0, env0, **ctx_kwargs)
+            lab = label if isinstance(label, str) else f"#{i}"
+            c.dinst(c.env[label].t if isinstance(label, str) and label in c.env else s._resolve(c, label), k0)   # induction hypothesis at k0
+            s.oblig(f"{inv.name}.{stage}.dforall[{lab}]", "inv", c, fn(cctx, c, k0))
 
     def assume_inv(s, inv, p, H0, env0, ctx_kwargs):
         ctx = InvCtx(s, p, H0, env0, **ctx_kwargs)
@@ -629,6 +637,14 @@ class StmtMixin(CallMixin):
                 c2.env = env1
                 return fn(c2, pth, j)
             p.add_schema(tgt, sch)
+        for label, fn in inv.dforalls:
+            tgt = env1[label].t if isinstance(label, str) and label in env1 else s._resolve(p, label)
+            def dsch(pth, kk, fn=fn):
+                c2 = InvCtx(s, pth, H0, env0, **ctx_kwargs)
+                c2.H = H1
+                c2.env = env1
+                return fn(c2, pth, kk)
+            p.add_dschema(tgt, dsch)
 
     def s_While(s, n, p):
         inv, key = s.get_inv(n)
